@@ -223,6 +223,48 @@ def rule_family(level=1):
                         yield b
 
 
+def consume_family():
+    """Operator pairs over BOTH inputs, with the inputs consumed: the result replaces x and y, so the operand order
+    found on the stack is the wrong one for half of the family and the right sequence needs a SWAP (a specification
+    that wrongly allows swapping the operands of a non-commutative result shows here and nowhere else)."""
+    seen = set()
+    ops2 = ["ADD", "SUB", "MUL", "DIV", "SDIV", "MOD", "AND", "OR", "XOR", "SHL", "SHR", "SAR", "LT", "GT", "SLT",
+            "SGT", "EQ", "EXP", "BYTE", "SIGNEXTEND"]
+    leaves = [X, Y, C(0), C(1), C(MASK)]
+    outer_leaves = [X, Y, C(0), C(1)]
+    tail = [I("SWAP2"), I("POP"), I("POP")]
+
+    def has(e, v):
+        return e == v or (e[0] not in ("in", "c", "z") and any(has(a, v) for a in e[1:]))
+
+    exprs = []
+    for op in ops2:
+        exprs += [(op, X, Y), (op, Y, X)]
+    for op1 in ops2:
+        for a, c in itertools.product(leaves, repeat=2):
+            if a[0] == "c" and c[0] == "c":
+                continue
+            inner = (op1, a, c)
+            for op2 in ops2 + ["ISZERO", "NOT"]:
+                if op2 in ("ISZERO", "NOT"):
+                    exprs.append((op2, inner))
+                    continue
+                for o in outer_leaves:
+                    exprs.append((op2, inner, o))
+                    exprs.append((op2, o, inner))
+    for e in exprs:
+        if not (has(e, X) and has(e, Y)):
+            continue
+        b = compile_copy([e], 2)
+        if b is None:
+            continue
+        b = b + tail
+        t = tuple(b)
+        if t not in seen:
+            seen.add(t)
+            yield b
+
+
 ADDR9 = [C(0), C(1), C(31), C(32), C(33), X, ("ADD", C(1), X), ("ADD", C(32), X), Y]
 ADDR6 = [C(0), C(1), C(32), X, ("ADD", C(1), X), Y]
 KEYS4 = [C(0), C(1), X, Y]
